@@ -310,6 +310,12 @@ func (e *Exec) convert(v Value, from, to types.Type) Value {
 		s := v.(*Str)
 		eb := sl.Elem().Underlying().(*types.Basic)
 		if eb.Kind() == types.Byte || eb.Kind() == types.Uint8 {
+			if s.Runes && !e.allASCII(s) {
+				// keep the rune form: the UTF-8 length would fork per rune
+				obj := e.newObj(nil, &Array{})
+				obj.Lazy = s
+				return Slice{Arr: obj, Len: len(s.R), Cap: len(s.R)}
+			}
 			bs := e.strBytes(s)
 			obj := e.newArrayObj(sl.Elem(), len(bs))
 			for i, b := range bs {
@@ -327,6 +333,9 @@ func (e *Exec) convert(v Value, from, to types.Type) Value {
 	if sl, ok := fu.(*types.Slice); ok && isString(tu) {
 		s := v.(Slice)
 		eb := sl.Elem().Underlying().(*types.Basic)
+		if s.Arr != nil && s.Arr.Lazy != nil {
+			return s.Arr.Lazy
+		}
 		out := make([]*term.T, s.Len)
 		for i := 0; i < s.Len; i++ {
 			out[i] = e.sliceElem(s, i).(*term.T)
@@ -547,6 +556,9 @@ func (e *Exec) sliceOp(f *Frame, x *ssa.Slice) Value {
 	switch b := base.(type) {
 	case Slice:
 		sl = b
+		if b.Arr != nil && b.Arr.Lazy != nil {
+			e.sliceArr(b)
+		}
 		ln, cp = b.Len, b.Cap
 	case *Str:
 		str = b
@@ -594,7 +606,6 @@ func (e *Exec) sliceOp(f *Frame, x *ssa.Slice) Value {
 		if sl.Arr == nil {
 			return Slice{}
 		}
-		e.checkRegionSlice(sl.Arr, sl.Off+l, sl.Off+h)
 		return Slice{Arr: sl.Arr, Off: sl.Off + l, Len: h - l, Cap: limit - l}
 	case 1:
 		bs := e.strBytes(str)
